@@ -485,6 +485,9 @@ def get_uct(desc):
 
 
 def run_case(desc):
+    if desc.get("src") == "alt-unavailable":
+        from . import snippets
+        raise snippets.SnippetError("(3.11 child) " + desc.get("unavailable", ""))
     if "pre" in desc:
         return desc["pre"]["obs"]
     from stackscope import _lowlevel as ll
